@@ -141,6 +141,7 @@ class FnSpec:
         self.external = False
         self.novis = False
         self.panic = None
+        self.panicwhen = None  # the panic branch may only be reached when this holds (panic freedom otherwise)
         self.dropcalls = []
         self.requires = []  # list of text
         self.ensures = []  # list of (tags, text)  common
@@ -417,6 +418,8 @@ class Generator:
                         spec.view = True
                     elif cmd == "panic":
                         spec.panic = arg
+                    elif cmd == "panicwhen":
+                        spec.panicwhen = arg
                     elif cmd == "dropcall":
                         spec.dropcalls.append(arg.strip())
                     elif cmd == "requires":
@@ -667,7 +670,7 @@ class Generator:
         # panics
         for m in ([] if spec.external else it["macros"]):
             if m["name"] == "panic" and spec.panic is not None:
-                common.append((m["span"][0], m["span"][1], "{ proof { assert(%s); } diverge() }" % spec.panic))
+                common.append((m["span"][0], m["span"][1], "{ proof { assert(%s);%s } diverge() }" % (spec.panic, (" assert(%s);" % spec.panicwhen) if spec.panicwhen else "")))
                 self.log.append({"rule": "R-PANIC", "site": site})
         if spec.assertmacro and not spec.external:
             n = 0
@@ -731,7 +734,11 @@ class Generator:
             ts, te = it["tail"]
             if spec.pretailproof is not None:
                 common.append((ts, ts, "proof {\n" + spec.pretailproof + "\n        }\n        "))
-            common.append((ts, ts, "let __res = "))
+            # the tail expression takes its type from the return type: keep that for the binding
+            rt_ann = ""
+            if sig["ret"] is not None:
+                rt_ann = ": " + _sub_text(src[sig["ret"][0]:sig["ret"][1]].decode(), spec.subs, [], site)
+            common.append((ts, ts, "let __res%s = " % rt_ann))
             common.append((te, te, ";\n        proof {\n" + spec.tailproof + "\n        }\n        __res"))
             self.log.append({"rule": "R-TAILBIND", "site": site})
         # R-OPTCOMB: `E.map(|p| B)` / `C.then(|| B)` / `E.map_or(D, |p| B)` with the closure inlined, as std defines them
@@ -818,7 +825,18 @@ class Generator:
             c = it["closures"][n - 1]
             prm = c["params"][k]
             if prm["ident"] is None:
-                raise Undecided("closparam: parameter is not `&*ident`")
+                # any other pattern (a tuple): `|PAT|` => `|var: ty| { let PAT = var; … }`
+                pat_txt = src[prm["span"][0]:prm["span"][1]].decode()
+                common.append((prm["span"][0], prm["span"][1], "%s: %s" % (var, ty)))
+                let = "let %s = %s; " % (pat_txt, var)
+                if c["body_is_block"]:
+                    common.append((c["body"][0] + 1, c["body"][0] + 1, " " + let))
+                else:
+                    if n not in spec.closures:
+                        raise Undecided("closparam on an expression-bodied closure needs a `closure` contract")
+                    common.append((c["body"][0], c["body"][0], let))
+                self.log.append({"rule": "R-CLOSPAT", "site": site, "what": "closure %d parameter %d `%s` typed `%s`" % (n, k, pat_txt, ty)})
+                continue
             if prm["refdepth"] == 0:
                 common.append((prm["span"][0], prm["span"][1], "%s: %s" % (prm["ident"], ty)))
             else:
